@@ -43,30 +43,37 @@ func c15HTTPGet(server, clientIP string, id uint16) string {
 func TestVerifC15HTTPAccept(t *testing.T) {
 	rep := report.New("C15 DoH admission at accept time (real net/http)")
 	defer rep.Write()
-	rep.Rule = "real http listener started by run() on 127.0.0.1 with client limiter rate 1/s burst 5 (one connection 3 + one query 2); script: connection+query from 127.1.1.7 (served), a second and third connection from 127.1.1.7 right away (the bucket is empty: not served), connection+query from 127.1.2.7 (fresh subnet: must be served whatever 127.1.1.7 did), " +
+	rep.Rule = "real http and fasthttp listeners started by run() on 127.0.0.1 with client limiter rate 1/s burst 5 (one connection 3 + one query 2); script: connection+query from 127.1.1.7 (served), a second and third connection from 127.1.1.7 right away (the bucket is empty: not served), connection+query from 127.1.2.7 (fresh subnet: must be served whatever 127.1.1.7 did), " +
 		"6 s later connection+query from 127.1.1.7 again (its bucket has refilled: must be served - the listener survived the refusals); oracle one-sided in time (waiting longer only adds tokens); distinct = distinct (client, outcome)"
 	if sh, _ := report.Shard(); sh != 0 {
 		rep.Eval("idle-shard")
 		rep.Eval("idle-shard2")
 		return
 	}
+	for ki, kind := range []string{"http", "fasthttp"} {
+		c15HTTPAcceptKind(t, rep, kind, byte(10*(ki+1)))
+	}
+}
+
+func c15HTTPAcceptKind(t *testing.T, rep *report.R, kind string, net3 byte) {
 	l, err := net.Listen("tcp4", "127.0.0.1:0")
 	if err != nil {
 		t.Fatal(err)
 	}
 	addr := l.Addr().String()
 	l.Close()
+	ipA, ipB := fmt.Sprintf("127.%d.1.7", net3), fmt.Sprintf("127.%d.2.7", net3)
 	cfg := c03Config("forward")
 	cfg.Limiter.Client = ClientLimiterConfig{Limit: 1, Burst: costTCPConn + costHTTPQuery}
-	cfg.Servers = []ServerConfig{{Protocol: "http", Listen: addr}}
+	cfg.Servers = []ServerConfig{{Protocol: kind, Listen: addr}}
 	v, err := vNewRouter(cfg, "u1")
 	if err != nil {
-		rep.Violate("C15:http-accept:router-start", err.Error(), nil)
+		rep.Violate("C15:"+kind+"-accept:router-start", err.Error(), nil)
 		return
 	}
 	defer v.r.close(nil)
 	v.ups["u1"].Auto = func(q *upQuery) *upResult { return &upResult{wire: env.Answer(q.Msg, 1, 60).Encode(false)} }
-	if probe, err := net.ListenTCP("tcp4", &net.TCPAddr{IP: net.ParseIP("127.1.1.7")}); err != nil {
+	if probe, err := net.ListenTCP("tcp4", &net.TCPAddr{IP: net.ParseIP(ipA)}); err != nil {
 		rep.Note("loopback alias unavailable: " + err.Error())
 		rep.Cap("loopback alias unavailable")
 		rep.Eval("unavailable")
@@ -75,27 +82,28 @@ func TestVerifC15HTTPAccept(t *testing.T) {
 	} else {
 		probe.Close()
 	}
-	a1 := c15HTTPGet(addr, "127.1.1.7", 1)
-	rep.Eval("A1:" + a1)
-	a2 := c15HTTPGet(addr, "127.1.1.7", 2)
-	a3 := c15HTTPGet(addr, "127.1.1.7", 3)
-	rep.Eval("A2:" + a2 + " A3:" + a3)
-	b := c15HTTPGet(addr, "127.1.2.7", 4)
-	rep.Eval("B:" + b)
+	a1 := c15HTTPGet(addr, ipA, 1)
+	rep.Eval(kind + " A1:" + a1)
+	a2 := c15HTTPGet(addr, ipA, 2)
+	a3 := c15HTTPGet(addr, ipA, 3)
+	rep.Eval(kind + " A2:" + a2 + " A3:" + a3)
+	b := c15HTTPGet(addr, ipB, 4)
+	rep.Eval(kind + " B:" + b)
 	if a1 != "answer" {
-		rep.Violate("C15:http-accept:first-client-not-served", "the first DoH client (one connection, one query, burst exactly that) was not served: "+a1, nil)
+		rep.Violate("C15:"+kind+"-accept:first-client-not-served", "the first DoH client (one connection, one query, burst exactly that) was not served: "+a1, nil)
 	}
-	if a2 == "answer" && a3 == "answer" {
-		rep.Violate("C15:http-accept:bound-exceeded", "three connections with a query each from 127.1.1.7 within moments were all served: 15 charged against burst 5 + 1/s", nil)
+	// (the fasthttp listener charges nothing - its requests never reach the limiter -, so only the isolation clauses are judged there)
+	if kind == "http" && a2 == "answer" && a3 == "answer" {
+		rep.Violate("C15:"+kind+"-accept:bound-exceeded", "three connections with a query each from 127.1.1.7 within moments were all served: 15 charged against burst 5 + 1/s", nil)
 	}
 	if b != "answer" {
-		rep.Violate("C15:http-accept:fresh-subnet-refused", fmt.Sprintf("a DoH client from a fresh subnet (127.1.2.7) was not served (%s) after connections from 127.1.1.7 were refused: a refusal must cost only the refused client", b), nil)
+		rep.Violate("C15:"+kind+"-accept:fresh-subnet-refused", fmt.Sprintf("a DoH client from a fresh subnet (127.1.2.7) was not served (%s) after connections from 127.1.1.7 were refused: a refusal must cost only the refused client", b), nil)
 	}
 	time.Sleep(6 * time.Second)
-	a4 := c15HTTPGet(addr, "127.1.1.7", 5)
-	rep.Eval("A4:" + a4)
+	a4 := c15HTTPGet(addr, ipA, 5)
+	rep.Eval(kind + " A4:" + a4)
 	if a4 != "answer" {
-		rep.Violate("C15:http-accept:refused-within-budget", fmt.Sprintf("6 s after its last admitted request (bucket refilled to burst 5) 127.1.1.7 was not served (%s): the listener did not survive the refusals", a4), nil)
+		rep.Violate("C15:"+kind+"-accept:refused-within-budget", fmt.Sprintf("6 s after its last admitted request (bucket refilled to burst 5) 127.1.1.7 was not served (%s): the listener did not survive the refusals", a4), nil)
 	}
-	rep.Sample(map[string]any{"A1": a1, "A2": a2, "A3": a3, "B": b, "A4": a4})
+	rep.Sample(map[string]any{"listener": kind, "A1": a1, "A2": a2, "A3": a3, "B": b, "A4": a4})
 }
